@@ -412,7 +412,7 @@ pub struct Proxy {
     pub addr: SocketAddr,
     pub stats: Arc<ProxyStats>,
     plan: Arc<Mutex<ProxyPlan>>,
-    kill: Arc<tokio::sync::Notify>,
+    kill: Arc<tokio::sync::watch::Sender<u64>>,
     refuse: Arc<std::sync::atomic::AtomicBool>,
     task: tokio::task::JoinHandle<()>,
 }
@@ -423,7 +423,7 @@ impl Proxy {
         let addr = listener.local_addr()?;
         let stats: Arc<ProxyStats> = Default::default();
         let plan = Arc::new(Mutex::new(plan));
-        let kill = Arc::new(tokio::sync::Notify::new());
+        let kill = Arc::new(tokio::sync::watch::channel(0u64).0);
         let refuse = Arc::new(std::sync::atomic::AtomicBool::new(false));
         let (st, pl, kl, rf) = (stats.clone(), plan.clone(), kill.clone(), refuse.clone());
         let task = tokio::spawn(async move {
@@ -436,7 +436,7 @@ impl Proxy {
                 }
                 st.connections.fetch_add(1, Ordering::Relaxed);
                 let plan = pl.lock().unwrap().clone();
-                let (st, kl) = (st.clone(), kl.clone());
+                let (st, kl) = (st.clone(), kl.subscribe());
                 tokio::spawn(async move {
                     let Ok(server) = TcpStream::connect(target).await else {
                         let _ = client.set_linger(Some(Duration::ZERO));
@@ -455,7 +455,9 @@ impl Proxy {
     }
     /// Reset every connection currently going through the proxy.
     pub fn kill_all(&self) {
-        self.kill.notify_waiters();
+        // a watch channel, not `Notify::notify_waiters`: a pump that is busy writing (or sleeping
+        // its delay) at this moment must still see the reset when it comes back to its select
+        self.kill.send_modify(|g| *g += 1);
     }
     /// Refuse (reset) new connections from now on.
     pub fn refuse_new(&self, yes: bool) {
@@ -469,13 +471,13 @@ impl Proxy {
 impl Drop for Proxy {
     fn drop(&mut self) {
         self.task.abort();
-        self.kill.notify_waiters();
+        self.kill.send_modify(|g| *g += 1);
     }
 }
 
 /// Forward both directions of one proxied connection in a single task (whole `TcpStream`s are
 /// kept so that a reset can be produced with SO_LINGER(0)).
-async fn pump_pair(client: TcpStream, server: TcpStream, plan: ProxyPlan, stats: Arc<ProxyStats>, kill: Arc<tokio::sync::Notify>) {
+async fn pump_pair(client: TcpStream, server: TcpStream, plan: ProxyPlan, stats: Arc<ProxyStats>, mut kill: tokio::sync::watch::Receiver<u64>) {
     let mut cbuf = vec![0u8; 64 * 1024];
     let mut sbuf = vec![0u8; 64 * 1024];
     let (mut c_total, mut s_total) = (0u64, 0u64);
@@ -491,9 +493,9 @@ async fn pump_pair(client: TcpStream, server: TcpStream, plan: ProxyPlan, stats:
     loop {
         // read from whichever side has data
         let (c2s, n) = tokio::select! {
-            r = client.read(&mut cbuf) => match r { Ok(0) | Err(_) => { let _ = server.shutdown().await; let _ = drain(&mut server, &mut client, &stats, blackhole).await; return; } Ok(n) => (true, n) },
-            r = server.read(&mut sbuf) => match r { Ok(0) | Err(_) => { let _ = client.shutdown().await; let _ = drain(&mut client, &mut server, &stats, blackhole).await; return; } Ok(n) => (false, n) },
-            _ = kill.notified() => { rst(client, server); return; }
+            r = client.read(&mut cbuf) => match r { Ok(0) | Err(_) => { let _ = server.shutdown().await; let _ = drain(&mut server, &mut client, &stats, blackhole, &mut kill).await; return; } Ok(n) => (true, n) },
+            r = server.read(&mut sbuf) => match r { Ok(0) | Err(_) => { let _ = client.shutdown().await; let _ = drain(&mut client, &mut server, &stats, blackhole, &mut kill).await; return; } Ok(n) => (false, n) },
+            _ = kill.changed() => { rst(client, server); return; }
         };
         if !plan.delay.is_zero() {
             tokio::time::sleep(plan.delay).await;
@@ -545,11 +547,18 @@ async fn pump_pair(client: TcpStream, server: TcpStream, plan: ProxyPlan, stats:
 }
 
 /// After one side reached EOF: keep forwarding the other direction until it ends too.
-async fn drain(from: &mut TcpStream, to: &mut TcpStream, stats: &Arc<ProxyStats>, blackhole: bool) -> std::io::Result<()> {
+async fn drain(from: &mut TcpStream, to: &mut TcpStream, stats: &Arc<ProxyStats>, blackhole: bool, kill: &mut tokio::sync::watch::Receiver<u64>) -> std::io::Result<()> {
     let mut buf = vec![0u8; 64 * 1024];
     let _ = stats;
     loop {
-        let n = tokio::time::timeout(Duration::from_secs(30), from.read(&mut buf)).await.unwrap_or(Ok(0))?;
+        let n = tokio::select! {
+            r = tokio::time::timeout(Duration::from_secs(30), from.read(&mut buf)) => r.unwrap_or(Ok(0))?,
+            _ = kill.changed() => {
+                let _ = from.set_linger(Some(Duration::ZERO));
+                let _ = to.set_linger(Some(Duration::ZERO));
+                return Ok(());
+            }
+        };
         if n == 0 {
             return Ok(());
         }
